@@ -159,6 +159,10 @@ def gen_index(tier, rng):
             start = [rng.randint(0, s) for s in stop] if rng.random() < 0.5 else 0
             yield {"start": start, "stop": stop, "D": D, "ct": rng.choice(cts), "graded": rng.random() < 0.5,
                    "reverse": rng.random() < 0.5}
+            if D > 1:
+                # per-dimension bounds with `dimensions` left at its default: the number of columns follows the bounds
+                yield {"start": start, "stop": stop, "D": D, "ct": rng.choice(cts), "graded": rng.random() < 0.5,
+                       "reverse": rng.random() < 0.5, "omit_dimensions": True}
 
 
 def gen_index_pairs(tier, rng):
@@ -182,12 +186,12 @@ def _ct(v):
 
 @check("C18", "glexindex.exact", gen_index, functions=("numpoly.glexindex", "numpoly.cross_truncate", "numpoly.glexsort"),
        note="bounded: start<=stop<=4, dimensions<=3 (4 thorough), norms {0,.5,1,2,inf}, all flag combinations, "
-            "against brute-force enumeration; exhaustive over this grid")
+            "against brute-force enumeration; exhaustive over this grid; per-dimension bounds also with `dimensions` omitted")
 def glexindex_exact(inp):
     import numpoly
     D, ct = inp["D"], _ct(inp["ct"])
-    got = numpoly.glexindex(start=inp["start"], stop=inp["stop"], dimensions=D, cross_truncation=ct,
-                            graded=inp["graded"], reverse=inp["reverse"])
+    dims = {} if inp.get("omit_dimensions") else {"dimensions": D}
+    got = numpoly.glexindex(start=inp["start"], stop=inp["stop"], cross_truncation=ct, graded=inp["graded"], reverse=inp["reverse"], **dims)
     want, unsure = expected_indices(inp["start"], inp["stop"], D, ct, inp["graded"], inp["reverse"])
     if unsure:
         return None
@@ -204,8 +208,8 @@ def glexindex_exact(inp):
             arr += 3
     except Exception:
         pass
-    for f in (lambda: numpoly.glexindex(start=inp["start"], stop=inp["stop"], dimensions=D, cross_truncation=ct,
-                                        graded=inp["graded"], reverse=inp["reverse"]),):
+    for f in (lambda: numpoly.glexindex(start=inp["start"], stop=inp["stop"], cross_truncation=ct,
+                                        graded=inp["graded"], reverse=inp["reverse"], **dims),):
         again = [tuple(int(v) for v in row) for row in numpy.asarray(f()).reshape(-1, D)]
         if again != want:
             return f"second call with the same arguments (after the first result was edited in place) got {again} expected {want}"
